@@ -262,21 +262,17 @@ impl<'a> Dfs<'a> {
 
 fn exhaustive(cfg: &QfCfg, first_class: usize, rep: &mut Report) {
     let total = 1u64 << (cfg.q + cfg.r);
-    let universe: Vec<u64> = (0..total).collect();
+    let universe: Vec<u64> = (0..total).map(|v| qf_fp_key(cfg, v)).collect();
     let Some(cls) = classes_for(cfg, &universe, rep, false) else {
         return;
     };
     if cls.n_classes as u64 != total {
-        rep.violation(
-            "C13/class/fewer-classes-than-fingerprints",
-            format!(
-                "{}: Identity hasher over all {} fingerprints yields only {} classes",
-                cfg.label(),
-                total,
-                cls.n_classes
-            ),
-            json!({"config": cfg}),
-        );
+        // The crafted keys do not enumerate the classes of this implementation (it cuts its
+        // fingerprint from other hash bits than the low or the high end). That is no violation of
+        // C13 - classes are whatever the filter cannot tell apart - it only means this exhaustive
+        // scenario cannot be set up. (It used to be reported as a violation; a neutral change that
+        // took the fingerprint from the top hash bits showed that this demanded more than C13.)
+        rep.count("exhaustive_skipped(crafted keys do not enumerate the classes)", 1);
         return;
     }
     let cap = cfg.slots();
@@ -317,7 +313,7 @@ fn exhaustive(cfg: &QfCfg, first_class: usize, rep: &mut Report) {
 
 fn quotient_sequences(cfg: &QfCfg, prefix: &[u64], len: usize, rep: &mut Report, r: &mut FastRng) {
     let total = 1u64 << (cfg.q + cfg.r);
-    let universe: Vec<u64> = (0..total).collect();
+    let universe: Vec<u64> = (0..total).map(|v| qf_fp_key(cfg, v)).collect();
     let Some(cls) = classes_for(cfg, &universe, rep, false) else {
         return;
     };
@@ -338,7 +334,7 @@ fn quotient_sequences(cfg: &QfCfg, prefix: &[u64], len: usize, rep: &mut Report,
         let mut m = Model::new(&cls, cap);
         let mut seq = vec![];
         for qv in &quots {
-            let k = (qv << cfg.r) | r.below(nr);
+            let k = qf_fp_key(cfg, (qv << cfg.r) | r.below(nr));
             seq.push(k);
             rep.evaluations += 1;
             if let Err((sig, what)) = step(&mut f, &mut m, k, &mut queries) {
@@ -490,7 +486,7 @@ fn capacity_boundary(q: usize, rep: &mut Report) {
             if quot & 0xf_ffff == 0 {
                 beat();
             }
-            let k = quot << 1; // remainder 0
+            let k = qf_fp_key(&cfg, quot << 1); // remainder 0
             match Flt::insert(&mut f, k) {
                 Ok(true) => {}
                 other => {
@@ -508,13 +504,14 @@ fn capacity_boundary(q: usize, rep: &mut Report) {
         }
         // full: a new class must be rejected, known ones are known, absent ones absent
         for quot in [0u64, 1, n / 2, n - 1] {
-            if Flt::insert(&mut f, (quot << 1) | 1) != Err(()) {
+            let (k0, k1) = (qf_fp_key(&cfg, quot << 1), qf_fp_key(&cfg, (quot << 1) | 1));
+            if Flt::insert(&mut f, k1) != Err(()) {
                 return Some(("C13/insert-result/expected-Err(Full)-got-Ok".into(), format!("a new class was accepted by a table holding 2^{} classes", q)));
             }
-            if Flt::insert(&mut f, quot << 1) != Ok(false) {
+            if Flt::insert(&mut f, k0) != Ok(false) {
                 return Some(("C13/insert-result/expected-Ok(false)-got-other".into(), "re-insert of a known class into a full table".into()));
             }
-            if !Flt::query(&f, quot << 1) || Flt::query(&f, (quot << 1) | 1) {
+            if !Flt::query(&f, k0) || Flt::query(&f, k1) {
                 return Some(("C13/query/false-positive-from-bookkeeping".into(), format!("full table: wrong query answer around quotient {}", quot)));
             }
         }
